@@ -265,6 +265,18 @@ def finish(prop, level, tier, seed, jobs, t0, assumptions, rule, extra_cov=None,
     violations = []
     broken = []
     for job in jobs:
+        if "WARNING: DATA RACE" in (job.output or ""):
+            out = job.output
+            i = out.index("WARNING: DATA RACE")
+            blk = out[i:i + 4000]
+            frames = [l.strip() for l in blk.splitlines() if REPO_FRAME.search(l) and "/vf_" not in l and "verifdrv" not in l]
+            key = "%s data-race %s" % (prop, (frames[0] if frames else "?")[:140])
+            violations.append({"key": key, "desc": "the Go race detector reports unsynchronised access in a free-running run of the scenario bodies:\n" + blk,
+                               "replay": {"job": job.name, "env": job.env}})
+            if job.report is not None:
+                job.report["broken"] = [b for b in (job.report.get("broken") or []) if "driver exit code" not in b]
+            if job.crash and job.report is None:
+                continue
         if job.crash:
             m = REPO_FRAME.search(job.output or "")
             if ("panic:" in job.output or "fatal error:" in job.output) and m and "test timed out" not in job.output:
